@@ -16,6 +16,7 @@ def sync():
     p = f"{scratch}/harness/Cargo.toml"
     s = open(p).read().replace('path = "/repo"', f'path = "{scratch}/repo"')
     open(p, 'w').write(s)
+    os.makedirs(f"{scratch}/harness/.cargo", exist_ok=True)
     open(f"{scratch}/harness/.cargo/config.toml", 'w').write(f'[net]\noffline = true\n[build]\ntarget-dir = "{scratch}/target"\n')
 sync()
 env = dict(os.environ, VERIF_ROOT=f"{scratch}/root", CARGO_NET_OFFLINE="true")
@@ -26,6 +27,8 @@ for a in args:
     if r.returncode != 0:
         print(f"{name}: PATCH FAILED {r.stdout[-200:]}"); sync(); continue
     b = sh(f"cd {scratch}/harness && cargo build --release --offline 2>&1 | tail -5", env=env)
+    # the real binary (hooks off) for the black-box parts, built from the mutated copy
+    sh(f"cargo build --offline --manifest-path {scratch}/repo/Cargo.toml --no-default-features --target-dir {scratch}/root/target/n2bin 2>&1 | tail -3", env=env)
     if 'Finished' not in b.stdout:
         print(f"{name}: BUILD FAILED {b.stdout[-300:]}")
     else:
